@@ -270,7 +270,7 @@ def r19(orig, rule):
     # X -= E;  ->  let __k = E; X -= __k;     (names the intermediate so that a proof block can sit between the call and the update;
     #                                           for a primitive left operand the right operand is evaluated first in both forms)
     s = norm(orig)
-    m = _m(r'(%s) (-=|\+=) (.+) ;' % ID, s)
+    m = _m(r'(%s(?: \. %s)*) (-=|\+=) (.+) ;' % (ID, ID), s)
     x, op, e = m.groups()
     return 'let __k = %s; %s %s __k;' % (e, x, op)
 
